@@ -23,9 +23,9 @@ CASES = {"quick": 480, "thorough": 16000}
 BUDGET = {"quick": 60, "thorough": 1500}
 FLOORS = {"quick": {"nontrivial": 150, "max_skip_frac": 0.3,
                     "tags": {"returned": 250, "raised_not_converged": 10, "multi_level": 100, "discrete": 200, "continuous": 120,
-                             "trafo3w_ctrl": 60, "side_hv": 30, "characteristic": 60, "const": 60, "tap_at_limit": 40,
-                             "tap_moved": 150, "same_level_several": 100, "level_list": 20},
-                    "extras": {"trace_events": 8000, "control_steps": 1000, "counterfactual_pf": 40, "is_converged_reeval": 600}},
+                             "trafo3w_ctrl": 60, "side_hv": 30, "characteristic": 60, "const": 60, "tap_at_limit": 100,
+                             "tap_moved": 150, "same_level_several": 100, "level_list": 15},
+                    "extras": {"trace_events": 8000, "control_steps": 1000, "counterfactual_pf": 150, "is_converged_reeval": 600}},
           "thorough": {"nontrivial": 5000, "max_skip_frac": 0.3,
                        "tags": {"returned": 8000, "raised_not_converged": 300, "multi_level": 3000, "tap_at_limit": 1200},
                        "extras": {"trace_events": 250000, "control_steps": 30000}}}
